@@ -407,3 +407,95 @@ func nearCurvePoints(r *rand.Rand, perLimb int) []xy {
 	}
 	return out
 }
+
+var bigBeta, _ = new(big.Int).SetString("7ae96a2b657c07106e64479eac3434e99cf0497512f58995c1396c28719501ee", 16) // beta^3 = 1 mod p
+
+// limbTwinMasks: XOR patterns over the four internal limbs that a sloppy accumulation of per-limb differences cancels — the
+// same bit in two limbs (xor-accumulate), bit 63 in two limbs or bit 62 in four (sum wraps to 2^64), d in one limb and 2^64-d
+// in another, one-limb differences of every width (a truncated accumulator), differences only in the top or only in the bottom limb.
+func limbTwinMasks(r *rand.Rand) [][4]uint64 {
+	var out [][4]uint64
+	for i := 0; i < 4; i++ {
+		for j := i + 1; j < 4; j++ {
+			for _, k := range []uint{0, 31, 32, 61, 63} {
+				var m [4]uint64
+				m[i], m[j] = 1<<k, 1<<k
+				out = append(out, m)
+			}
+			d := r.Uint64()>>2 | 1
+			var m [4]uint64
+			m[i], m[j] = d, -d
+			if j == 3 {
+				m[i], m[j] = -d, d
+			}
+			out = append(out, m)
+		}
+		var one [4]uint64
+		one[i] = 1 << uint(r.Intn(62))
+		out = append(out, one)
+		one[i] = 0xffffffff00000000 >> uint(2*b2i(i == 3))
+		out = append(out, one)
+	}
+	out = append(out, [4]uint64{1 << 62, 1 << 62, 1 << 62, 1 << 62}, [4]uint64{1 << 63, 1 << 62, 1 << 62, 0}, [4]uint64{1 << 63, 1 << 63, 0, 0}, [4]uint64{0, 1 << 63, 1 << 63, 0})
+	return out
+}
+
+// limbTwins returns pairs of DISTINCT canonical residues mod m whose Montgomery limbs differ exactly by one of the masks.
+func limbTwins(r *rand.Rand, m *big.Int) [][2]*big.Int {
+	rinv := new(big.Int).ModInverse(new(big.Int).Mod(big2_256, m), m)
+	var out [][2]*big.Int
+	for _, mask := range limbTwinMasks(r) {
+		for try := 0; try < 20; try++ {
+			u := bigToLimbs(randBig(r, m))
+			var lo, hi [4]uint64
+			for i := range u {
+				lo[i], hi[i] = u[i]&^mask[i], u[i]|mask[i]
+			}
+			a, b := limbsToBig(lo), limbsToBig(hi)
+			if b.Cmp(m) >= 0 {
+				continue
+			}
+			out = append(out, [2]*big.Int{new(big.Int).Mod(new(big.Int).Mul(a, rinv), m), new(big.Int).Mod(new(big.Int).Mul(b, rinv), m)})
+			break
+		}
+	}
+	return out
+}
+
+// betaTwinW returns residues w mod p such that the Montgomery limbs of w and of beta*w differ EXACTLY by one of the masks:
+// for any point P = (x, y) the representative (beta*x*z : y*z : z) of lambda*P with z = w/x then cross-multiplies, in
+// Point.Equal, to a pair of field elements that such an accumulation takes for equal — while the y comparison is genuinely equal.
+func betaTwinW(r *rand.Rand, beta *big.Int) []*big.Int {
+	rinv := new(big.Int).ModInverse(new(big.Int).Mod(big2_256, bigP), bigP)
+	bm1inv := new(big.Int).ModInverse(new(big.Int).Mod(add(beta, -1), bigP), bigP)
+	var out []*big.Int
+	for _, mask := range limbTwinMasks(r) {
+		var idx []int
+		for i, v := range mask {
+			if v != 0 {
+				idx = append(idx, i)
+			}
+		}
+		for signs := 0; signs < 1<<len(idx); signs++ {
+			delta := new(big.Int)
+			for n, i := range idx {
+				t := new(big.Int).Lsh(new(big.Int).SetUint64(mask[i]), uint(64*i))
+				if signs>>n&1 == 1 {
+					t.Neg(t)
+				}
+				delta.Add(delta, t)
+			}
+			u := new(big.Int).Mod(new(big.Int).Mul(delta, bm1inv), bigP) // Montgomery form of w: beta*u - u = delta
+			bu := new(big.Int).Mod(new(big.Int).Mul(u, beta), bigP)
+			ul, bl := bigToLimbs(u), bigToLimbs(bu)
+			exact := true
+			for i := range ul {
+				exact = exact && ul[i]^bl[i] == mask[i]
+			}
+			if exact && u.Sign() != 0 {
+				out = append(out, new(big.Int).Mod(new(big.Int).Mul(u, rinv), bigP))
+			}
+		}
+	}
+	return out
+}
